@@ -4,7 +4,7 @@ from props import taskprops, simprops
 
 HARNESS = ("atomh", "simh")
 TRUSTED = ["PARTIAL: task level only in Coq (C13's invariant: cancel racing with wakers/runner releases the future and the memory exactly once, no leak). The executor-level drop (ExecDrop of the design: every model, queued message and pending future released once, nothing runs afterwards) is NOT modelled; it is observed: the harness drops the Simulation at the end of every bench (idle, deadlocked, failed, with pending scheduler actions, blocked senders, pending queries, sub-models) and counts model drops and post-drop handler entries",
-           "joining of worker threads is observed through the drop returning (watchdog), undelivered messages are plain integers (no drop counters)"]
+           "a nested simulation built, run and dropped inside a handler is skipped by the model (it must have no effect on the enclosing simulation): only the harness executes it", "joining of worker threads is observed through the drop returning (watchdog), undelivered messages are plain integers (no drop counters)"]
 ASSUMPTIONS = []
 
 
@@ -22,6 +22,9 @@ def o_drop(case, line):
             cur = models[cur].get("parent")
         return True
     exp = sum(1 for i in range(len(models)) if added(i))
+    nm = simcase.parse_nested(line)
+    if nm is not None and (nm[0] != nm[1] or nm[2] != nm[3]):
+        return "nested simulations built inside handlers: %d models made, %d dropped; %d simulations, %d handler runs" % nm
     if n != exp:
         return "after dropping the simulation %d models had been dropped, %d belong to it" % (n, exp)
     if after:
@@ -36,7 +39,8 @@ def tie(rep, tier, rng, model_ok):
     taskprops.run_tasks(rep, "task-cancel-schedules", cases, model_ok=model_ok)
     n = 120 if q else 3000
     benches = [simgen.gen_fault(rng) for _ in range(n)] + [simgen.gen_deadlock(rng) for _ in range(n)] + \
-              [simgen.gen_net(rng, hier=True) for _ in range(n)] + [simgen.gen_sched(rng) for _ in range(n)]
+              [simgen.gen_net(rng, hier=True) for _ in range(n)] + [simgen.gen_sched(rng) for _ in range(n)] + \
+              [simgen.gen_nested(rng) for _ in range(n)]
     dis, orc, lm, mo, res = simcheck.compare_cases(rep, "drop-after-bench", benches, model_ok, thread_counts=(1, 4) if q else (1, 2, 4, 16),
                                                    oracles=(oracles.o_harness,), nontrivial=lambda c, o: True)
     simcheck.report(rep, "drop-after-bench", benches, dis, orc, lm, mo, res)
@@ -74,7 +78,7 @@ def tie(rep, tier, rng, model_ok):
         th, c, e, line = bad[0]
         rep.violation("drop-oracle", {"kind": "property-violated-on-implementation", "threads": th, "why": e,
                                       "case": simcase.render(c, bugs=simcheck.current_bugs(), threads=th), "observed": line[:2000]})
-    rep.cov["rule"] = "task level: cancel / drop-runnable / drop-token racing with wakers and a runner on the verbatim task.rs (oracle: future and memory released exactly once, no access after free); simulation level: the Simulation is dropped at the end of fault, deadlock, hierarchy and scheduling benches (pending actions, blocked senders, pending queries) on 1..16 threads: every added model dropped exactly once, no model code afterwards, the drop returns"
+    rep.cov["rule"] = "task level: cancel / drop-runnable / drop-token racing with wakers and a runner on the verbatim task.rs (oracle: future and memory released exactly once, no access after free); simulation level: the Simulation is dropped at the end of fault, deadlock, hierarchy and scheduling benches (pending actions, blocked senders, pending queries; handlers that build, run and drop a nested simulation on 1..3 threads) on 1..16 threads: every added model dropped exactly once, no model code afterwards, the drop returns"
 
 
 def replay(rep, path, model_ok):
